@@ -189,6 +189,10 @@ EXTRA8 = {
  "C05": " Eighth round: sub-check repeat (string * n with counts from the whole int64 range against empty-valued strings, affordable products, zero and negative counts; strings.Repeat is the reference).",
  "C08": " Eighth round: sub-check forin_nan (for-in over script-built and host-bound maps with entries under NaN-containing keys: every entry is visited once whatever the body deletes, breaks or returns).",
  "C12": " Eighth round: external lookups that answer with a nil error and a value that cannot be handed out count as a miss; sub-check lookups (scripted histories around scopes that carry a lookup).",
+ "C09": " Eighth round: sub-check errors-flow (a try nested in a catch block under the same catch-variable name, rethrown; loop header expressions - post and condition - that raise after a round ended by continue).",
+ "C13": " Eighth round: sub-check lockorder (String of module-holding scopes against operations that walk up through the module or its child: no schedule ends with every thread waiting for a lock of another scope).",
+ "C17": " Eighth round: sub-checks errs (50 callback error values: standard-library sentinels, anko's own, wrapped, uncomparable dynamic types - Walk returns that very value) and again (later walks of one tree after a callback wrote over presented values that are not nodes of the tree).",
+ "C19": " Eighth round: sub-checks tostring_fmt (values formatted through Format / Error / String / GoString methods, host-bound and made by bundled constructors, against fmt.Sprint) and result_history (the address of a builtin's result is taken and written through; the builtin still gives the Go answer in this and later runs; run in a sandbox child).",
 }
 for _i, _t in EXTRA8.items():
     CHECKS[_i]["text"] += _t
